@@ -654,3 +654,16 @@ CHECKS["C18"]["required_classes"]["all"] += ["reload:no-sets", "reload:agent-sta
 CHECKS["C19"]["required_classes"]["all"] += ["hooks-dir-world-writable-with-sticky-or-setgid"]
 CHECKS["C20"]["required_classes"]["all"] += ["negative-reply-with-OK-in-a-later-fragment"]
 CHECKS["C20"]["required_classes"]["all"] += ["host-process-receives-signals-while-the-module-runs"]
+
+# round 6
+DBG = {"WHAWTY_AUTH_DEBUG": "1"}
+CHECKS["C13"]["jobs"].append(J("request-debugenv", VSASL, "TestC13Request|TestC13RoundTrip|TestC13Response", {"shards": 2, "checks": 1500, "env": DBG}, {"shards": 4, "checks": 20000, "env": DBG}))
+CHECKS["C13"]["required_classes"]["all"] += ["env:WHAWTY_AUTH_DEBUG-set"]
+CHECKS["C01"]["jobs"].append(J("history-debugenv", VSTORE, "TestC01History", {"shards": 2, "checks": 100, "env": DBG}, {"shards": 4, "checks": 4000, "env": DBG}))
+CHECKS["C02"]["jobs"].append(J("hashfile-debugenv", VSTORE, "TestC02HashFile", {"shards": 2, "checks": 150, "env": DBG}, {"shards": 4, "checks": 5000, "env": DBG}))
+CHECKS["C14"]["jobs"].append(J("records-debugenv", VSTORE, "TestC14Records", {"shards": 2, "checks": 60, "env": DBG}, {"shards": 4, "checks": 3000, "env": DBG}))
+CHECKS["C05"]["jobs"].append(J("server-debugenv", VSASL, "TestC05Server", {"shards": 2, "checks": 60, "env": DBG}, {"shards": 4, "checks": 2000, "env": DBG}))
+CHECKS["C07"]["required_classes"]["all"] += ["mutation:field-boundary-moved"]
+CHECKS["C05"]["jobs"].append(J("accumulation", VSASL, "TestC05Accumulation", {"shards": 4, "checks": 8}, {"shards": 16, "checks": 300}))
+CHECKS["C05"]["required_classes"]["all"] += ["stalled-clients>=64", "undecodable-connections>=128-on-one-server"]
+CHECKS["C04"]["required_classes"]["all"] += ["agent-has-seen->=128-connections-without-a-request"]
